@@ -1283,7 +1283,7 @@ func (c *Ctx) funcxExtremes(note func(k, bad, undec string)) {
 
 func init() {
 	register(&Rule{ID: "FUNC.model", Floor: 5,
-		Doc: "the default function table evaluated abstractly (NewDefaultFunctionCollection, FindByName in three letter cases, Calculate with the type-unsafe operations): the 37 names and nothing else; per function and argument count 0..9 a result exactly for the statement's counts, never nil-without-error or both; host functions and constants as symbolic expressions of the converted argument; Min/Max/Sum/If/Choose/Contains/Abs/Empty/Null/Array/TimeSpan/Date on constants against their meaning; every function with an argument of every variant type in every position under both managers (result xor error; what the manager refuses to convert is an error); Min and Max as mirror images over lists with Null arguments in every position",
+		Doc: "the default function table evaluated abstractly (NewDefaultFunctionCollection, FindByName in three letter cases, Calculate with the type-unsafe operations): the 37 names and nothing else; per function and argument count 0..9 a result exactly for the statement's counts, never nil-without-error or both; host functions and constants as symbolic expressions of the converted argument; Min/Max/Sum/If/Choose/Contains/Abs/Empty/Null/Array/TimeSpan/Date on constants against their meaning; every function with an argument of every variant type in every position under both managers (result xor error; what the manager refuses to convert is an error); Min and Max as mirror images over lists with Null arguments in every position; one result type per function over arguments of every numeric type, called directly and through expressions; histories of RemoveByName / Remove / Add on the default and a plain collection followed on an ordered list of names, every remaining function located in three letter cases and called",
 		Run: func(c *Ctx) []*Obligation {
 			o := newObl("FUNC.model")
 			res := c.funcxRun()
